@@ -50,6 +50,27 @@ func (e *Exec) afterCommitChecks(rec *BlockRec) {
 	for _, p := range ex.Problems {
 		e.viol(p.Prop, p.Class, p.Entity, "after Commit(%d): %s", h, p.Detail)
 	}
+	if os.Getenv("PANASIM_DEBUG_GOV") != "" {
+		ctx := r0.App.NewContext(true, e.Env.Header(rec.B))
+		for _, p := range r0.App.GovKeeper.GetProposals(ctx) {
+			e.Trace.Ev("DEBUG proposal %d status=%s tally=%v end=%v now=%v", p.Id, p.Status, p.FinalTallyResult, p.VotingEndTime, rec.B.Time)
+		}
+	}
+	func() { // probe: a governance proposal changed the consensus parameters in this block
+		defer func() {
+			if r := recover(); r != nil && os.Getenv("PANASIM_DEBUG_GOV") != "" {
+				e.Trace.Ev("DEBUG params probe panicked: %v", r)
+			}
+		}()
+		if cp := r0.App.BaseApp.GetConsensusParams(r0.App.NewContext(true, e.Env.Header(rec.B))); cp != nil && cp.Block != nil {
+			now := fmt.Sprintf("%d/%d", cp.Block.MaxGas, cp.Block.MaxBytes)
+			if e.lastBlockParams != "" && e.lastBlockParams != now {
+				e.Stats.Inc("probe.gov.consensus_params_changed")
+				e.Trace.Ev("consensus params changed at height %d: %s -> %s", h, e.lastBlockParams, now)
+			}
+			e.lastBlockParams = now
+		}
+	}()
 	want := e.Model.Flatten()
 	for _, sec := range []string{"aol/", "did/", "pnft/"} {
 		if d := DiffFlat(want, ex.Flat, sec, 4); len(d) > 0 {
@@ -738,6 +759,7 @@ type applyOutcome struct {
 	Committed bool
 	Halt      *haltError
 	Mismatch  string
+	MismatchProp string
 }
 
 // applyBlock drives one block through a node, with an optional injected crash and mid-block tasks.
@@ -782,6 +804,11 @@ func (e *Exec) applyBlock(n *Node, rec *BlockRec, o applyOpts) (out applyOutcome
 			if o.Boot {
 				if tr.Code != rec.Results[i].Code {
 					out.Mismatch = fmt.Sprintf("height %d tx %d: result code %d/%s, reference replica had %d/%s (log %s)", h, i, tr.Code, tr.Codespace, rec.Results[i].Code, rec.Results[i].Codespace, trunc(tr.Log, 160))
+					if tr.Code == 0 && i < len(rec.TxIDs) && e.resubmitsAcceptedDid(rec.TxIDs[i]) {
+						// the chain that continues from the export accepted a DID message that had been accepted before
+						out.MismatchProp = "C04"
+						out.Mismatch = "a DID message that was accepted once is accepted again by the chain started from the export: " + out.Mismatch
+					}
 				}
 			} else if !tr.SameConsensus(rec.Results[i]) && out.Mismatch == "" {
 				out.Mismatch = fmt.Sprintf("height %d tx %d: result {code %d/%s gas %d/%d events %s data %x} differs from the reference replica's {code %d/%s gas %d/%d events %s data %x}", h, i,
@@ -950,6 +977,9 @@ func (e *Exec) applyOn(r *Replica, rec *BlockRec) {
 		prop := "C09"
 		if r.Boot {
 			prop = "C08"
+		}
+		if out.MismatchProp != "" {
+			prop = out.MismatchProp
 		}
 		e.viol(prop, "replica.diverged", "", "replica %d (config %+v, restarts %d, bootstrapped=%v): %s", r.ID, r.Cfg, r.Restarts, r.Boot, out.Mismatch)
 		r.Dead = true
@@ -1191,8 +1221,20 @@ func (e *Exec) bootstrap(st *Step) {
 	}
 	defer func() { tmp.App = nil }()
 	ex := ExtractState(tmp.DeliverStores())
+	// a long-lived replica that follows the chain from the export
+	follow := func() {
+		if st.Replica >= 0 && len(e.R) < 6 && !e.stop {
+			nr := NewNode(len(e.R), e.Env, NodeCfg{}, e.Scratch)
+			if e.importInto(nr, a1, vals, h) {
+				e.R = append(e.R, &Replica{Node: nr, Boot: true, FirstHeight: h + 1, Applied: h})
+			}
+		}
+	}
 	if d := DiffFlat(e.Model.Flatten(), ex.Flat, "", 4); len(d) > 0 {
 		e.viol(e.importProp(d[0]), "import.state_differs", "", "state after importing the export of height %d differs from the exported chain: %s", h, strings.Join(d, " ; "))
+		// when this difference belongs to another property than the one being decided, the imported chain still follows
+		// the original one: what it then does with the transactions to come is judged under the property they belong to
+		follow()
 		return
 	}
 	for _, p := range ex.Problems {
@@ -1239,13 +1281,7 @@ func (e *Exec) bootstrap(st *Step) {
 		}
 	}
 	e.Stats.Inc("probe.export_import_roundtrip")
-	// a long-lived replica that follows the chain from here
-	if st.Replica >= 0 && len(e.R) < 6 {
-		nr := NewNode(len(e.R), e.Env, NodeCfg{}, e.Scratch)
-		if e.importInto(nr, a1, vals, h) {
-			e.R = append(e.R, &Replica{Node: nr, Boot: true, FirstHeight: h + 1, Applied: h})
-		}
-	}
+	follow()
 }
 
 // importProp attributes an export/import difference: to C08 in general, and to the property that names
